@@ -1399,6 +1399,9 @@ cd {ROOT}
             if not created and os.path.exists(prettyBuildPath):
                 stepMessage(buildStep, "PRUNE", "{} (recipe changed)".format(prettyBuildPath),
                     WARNING)
+                # Invalidate first. If we get interrupted the truncated
+                # workspace must not be taken for the old, valid result.
+                BobState().resetWorkspaceState(prettyBuildPath, None)
                 emptyDirectory(prettyBuildPath)
                 created = True
             # invalidate build step
@@ -1449,6 +1452,9 @@ cd {ROOT}
         if somethingThere and packageDigest != oldPackageDigest:
             stepMessage(packageStep, "PRUNE", "{} (recipe changed)".format(prettyPackagePath),
                 WARNING)
+            # Invalidate first. If we get interrupted the truncated workspace
+            # must not be taken for the old, valid result.
+            BobState().resetWorkspaceState(prettyPackagePath, None)
             if os.path.islink(prettyPackagePath) or os.path.isfile(prettyPackagePath):
                 # Remove symlink or file which was left by a shared package
                 os.unlink(prettyPackagePath)
@@ -1606,6 +1612,7 @@ cd {ROOT}
         if prune:
             stepMessage(packageStep, "PRUNE", "{} ({})".format(prettyPackagePath,
                 reason), WARNING)
+            BobState().resetWorkspaceState(prettyPackagePath, None)
             emptyDirectory(prettyPackagePath)
             removePath(audit)
             BobState().resetWorkspaceState(prettyPackagePath, packageDigest)
